@@ -293,7 +293,11 @@ func Scopes(quick bool) []Scope {
 		polNS := fw.Pick(c, []string{"ns1", "ns2"}, "policy namespace")
 		pset := peerSets[c.Choose(len(peerSets), "rule peers")]
 		pt := fw.Pick(c, selPorts, "rule ports")
+		noLabels := c.Choose(2, "w2 labels: app=b,tier=x | none") == 1
 		w := &wm.World{NSs: nsc, WLs: ThreeWL(nil, nil, nil)}
+		if noLabels {
+			w.WLs[1].Labels = nil // a workload without any label: NotIn / DoesNotExist selectors still match it
+		}
 		np := wm.NP{NS: polNS, Name: "p", PodSel: *ps}
 		rl := wm.NPRule{Peers: pset, Ports: pt}
 		if dir == "Egress" {
